@@ -34,6 +34,7 @@ from __future__ import annotations
 import copy
 import json
 import logging
+import re
 import sys
 
 import shutil
@@ -439,6 +440,170 @@ def gen_triples(rng, repeat):
 
 
 # ----------------------------------------------------------------------------------------
+# platform names
+# ----------------------------------------------------------------------------------------
+# FlowIR accepts ANY string as the name of a platform (FlowIR.type_flowir: `platforms: ValidateMany(string_types)`;
+# the keys of variables / blueprint / environments / override are not restricted either).  The cache label is
+# `component:<platform>:stage<i>:<name>` and the component-level invalidation is a regular expression over it, so the
+# shape of the platform name is part of the input space: names as deployments use them (dashes, dots, slashes,
+# upper case), names made of / containing regular-expression metacharacters, blanks, colons, pieces of the label
+# syntax itself (`stage0`, `component`, `x:stage0:c0`), non-ASCII, one-character names, and - as a second platform of
+# the same description - names that are a prefix / suffix / doubling / case variant of the first.
+# (not generated: the empty name - `platform or active` makes it an alias of the active platform - and names with a
+# line break, see ctx.assumptions)
+REAL_PLATFORMS = ["openshift-kubeflux", "lsf.cluster", "ibm-cloud", "in-entrypoint", "hpc_lsf-2", "docker/local",
+                  "OpenShift", "sandbox.v2-beta", "openshift", "paragon", "kubernetes@eu-de", "x86_64-linux"]
+ODD_PLATFORMS = ["a+b", "p*", "(p)", "p|q", "p$", "^p", "[p]", "p{2}", "p\\d", "p?", ".*", "\\w+", "p q", " p", "p ",
+                 "p\tq", "p:q", ":stage0:c0", "x:stage0:c0", "stage0", "stage0:c0", "component", "component:p", ":",
+                 "-", ".", "0", "_", "plät", "平台", "%(g)s", "p#q", "default-x", "x-default", "default.",
+                 "Default", "p-", "-p", ".p", "p.", "p_q", "p,q", "p=q", "p'q", "p\"q", "~p", "p!", "p&q", "p;q", "p<q>"]
+BOUNDARY_COMPONENTS = [(0, "c0"), (1, "c0"), (10, "c0"), (11, "c0"), (1, "c00"), (0, "c-0"), (1, "c 0"), (0, "stage0"),
+                       (0, "c0:stage1:c0"), (0, "0"), (1, "C0"), (0, "-c0"), (1, "c0-"), (0, "c_0"), (0, "c.0"),
+                       (1, "c"), (0, "a+b"), (1, "c$"), (0, "ç"), (1, "stage1"), (2, "c0"), (0, "c0:"), (1, ":c0")]
+
+
+def neighbours(n1):
+    """names for a second platform that sit at the lexical boundaries of `n1`"""
+    out = [n1 + "-x", "x-" + n1, n1 + ".", "." + n1, n1 + n1, n1 + ":stage0", n1 + ":stage0:c0", n1 + " ", n1 + "0",
+           "default-" + n1, n1 + "-default", n1.swapcase(), n1[:-1], n1[1:], "p", re.escape(n1)]
+    return [x for x in out if x and x not in (n1, "default") and "\n" not in x]
+
+
+def name_class(n):
+    """coarse class of a platform name (evidence tags)"""
+    if re.fullmatch(r"[A-Za-z0-9_]+", n):
+        return "word"
+    if re.fullmatch(r"[A-Za-z0-9_.\-/@]+", n):
+        return "dash-dot"
+    if ":" in n:
+        return "colon"
+    if any(ch.isspace() for ch in n):
+        return "blank"
+    if has_meta(n):
+        return "regex-meta"
+    return "other"
+
+
+def pick_platform_names(rng):
+    r = rng.random()
+    n1 = rng.choice(REAL_PLATFORMS) if r < 0.55 else rng.choice(ODD_PLATFORMS)
+    n2 = None
+    if rng.random() < 0.5:
+        n2 = rng.choice(neighbours(n1)) if rng.random() < 0.7 else rng.choice(REAL_PLATFORMS + ODD_PLATFORMS)
+        if n2 in (n1, "default"):
+            n2 = None
+    return n1, n2
+
+
+def _second(tree):
+    """the sections of the second platform: those of the first with other values (a mix-up must be visible)"""
+    t = copy.deepcopy(tree)
+    if isinstance(t, dict):
+        if isinstance(t.get("global"), dict) and "g" in t["global"]:
+            t["global"]["g"] = "GQ"
+        if isinstance(t.get("variables"), dict) and "x" in t["variables"]:
+            t["variables"]["x"] = "XQ"
+    return t
+
+
+def _rename_override(comp, n1, n2):
+    ov = comp.get("override")
+    if isinstance(ov, dict) and "p" in ov:
+        sec = ov.pop("p")
+        ov[n1] = sec
+        if n2:
+            ov[n2] = _second(sec)
+
+
+def rename_platforms(rng, case, n1, n2=None, active=None):
+    """the platform `p` of a generated case becomes `n1`; with `n2` a further platform is declared (sections = those
+    of `p` with other values) and the operations that name `p` are dealt between the two.  active = the platform the
+    object is constructed for (first layer; queries name their platform explicitly, a share of those on the active
+    platform leave it out)"""
+    case = copy.deepcopy(case)
+    doc = case["doc"]
+    doc["platforms"] = ["default", n1] + ([n2] if n2 else [])
+    for sec in ("blueprint", "variables", "environments"):
+        if isinstance(doc.get(sec), dict) and "p" in doc[sec]:
+            v = doc[sec].pop("p")
+            doc[sec][n1] = v
+            if n2:
+                doc[sec][n2] = _second(v)
+    for c in doc["components"]:
+        _rename_override(c, n1, n2)
+
+    # a graph / experiment built FOR a platform may hold a flattened description (default + that platform only):
+    # there every operation that named `p` names the platform of the world
+    deal = bool(n2) and not (case.get("kind") == "ghistory" and case["world"].get("platform") == "p")
+
+    def fix(op):
+        if op.get("platform") == "p":
+            op["platform"] = n2 if deal and rng.random() < 0.45 else n1
+        if isinstance(op.get("body"), dict):
+            _rename_override(op["body"], n1, n2)
+        if isinstance(op.get("u"), dict):
+            fix(op["u"])
+        if active and active != "default" and op["op"] == "query" and op.get("platform") == active and rng.random() < 0.4:
+            op["implicit"] = True           # get_component_configuration(..., platform=None): the active platform
+
+    for op in case["ops"]:
+        fix(op)
+    if case.get("world", {}).get("platform") == "p":
+        case["world"]["platform"] = n1
+    case["names"] = [n1] + ([n2] if n2 else [])
+    if active and active != "default":
+        case["active"] = active
+    return case
+
+
+def maybe_rename(rng, case, share):
+    """`share` of the cases get other platform names than default / p"""
+    if rng.random() >= share:
+        return case
+    n1, n2 = pick_platform_names(rng)
+    active = None
+    if case.get("kind") != "ghistory" and rng.random() < 0.4:
+        active = rng.choice([n1] + ([n2] if n2 else []))
+    return rename_platforms(rng, case, n1, n2, active)
+
+
+def component_updates(rng, i, n, flav):
+    """every way of updating ONE component through the interface (each a list of calls)"""
+    out = [[e] for e in component_edits(rng, i, n)]
+    out.append([{"op": "updateComp", "stage": i, "name": n, "body": body(n, i, flavour=flav)}])
+    out.append([{"op": "deleteComp", "stage": i, "name": n}])
+    out.append([{"op": "deleteComp", "stage": i, "name": n},
+                {"op": "addComp", "stage": i, "name": n, "body": body(n, i, flavour=flav)}])
+    out.append([{"op": "touchComp", "stage": i, "name": n},
+                {"op": "setVarViaRef", "stage": i, "name": n, "var": "x", "value": "via-ref"}])
+    return out
+
+
+def gen_platform_names(rng, per_name, names=None):
+    """systematic stream: for EVERY platform name of the pools (alone, and next to a second platform whose name sits
+    at its lexical boundaries): components whose (stage, name) sit at the lexical boundaries of one another (stage 1 /
+    10 / 11, c / c0 / c00 / c0- / c-0 / c0:stage1:c0 ...) - ask everything on every platform - update ONE component
+    (per_name of the 15 ways, None = each) - ask everything - flush - ask everything"""
+    out = []
+    for n1 in (names or REAL_PLATFORMS + ODD_PLATFORMS):
+        comps = rng.sample(BOUNDARY_COMPONENTS, 4)
+        doc = base_doc([])
+        doc["variables"]["default"]["stages"].update({2: {}, 10: {"s": "ten"}, 11: {}})
+        doc["components"] = [body(n, i, flavour=rng.randint(0, 12)) for (i, n) in comps]
+        i, n = comps[0]
+        ways = component_updates(rng, i, n, rng.randint(4, 12))
+        for calls in (ways if per_name is None else rng.sample(ways, per_name)):
+            ops = [{"op": "sweep"}] + copy.deepcopy(calls) + [{"op": "sweep"}]
+            if rng.random() < 0.3:
+                ops += [{"op": "setGlobalVar", "var": "g", "value": "flushed"}, {"op": "sweep"}]
+            case = {"kind": "history", "meta": False, "doc": copy.deepcopy(doc), "ops": ops}
+            n2 = rng.choice(neighbours(n1)) if rng.random() < 0.5 else None
+            active = rng.choice([None, None, n1] + ([n2] if n2 else []))
+            out.append(rename_platforms(rng, case, n1, n2, active))
+    return out
+
+
+# ----------------------------------------------------------------------------------------
 # real code
 # ----------------------------------------------------------------------------------------
 
@@ -475,7 +640,7 @@ def apply_op(conc, op, store=None):
     try:
         if k == "query":
             res = conc.get_component_configuration((op["stage"], op["name"]), raw=False, include_default=True,
-                                                   platform=op["platform"])
+                                                   platform=None if op.get("implicit") else op["platform"])
             out = {"ok": K.to_json(res)}
             scramble(res)
             return out
@@ -546,8 +711,10 @@ def expand(ops, conc_ids):
 def run_history(case, want_model_ops=True):
     """runs the history on the real code; returns (flat ops incl. sweep queries, impl answers, oracle failures)"""
     F = _F()
-    conc = F.FlowIRConcrete(copy.deepcopy(case["doc"]), "default", {})
-    twin = F.FlowIRConcrete(copy.deepcopy(case["doc"]), "default", {})     # receives the updates only
+    active = case.get("active", "default")
+    platforms = list(case["doc"].get("platforms") or PLATFORMS)
+    conc = F.FlowIRConcrete(copy.deepcopy(case["doc"]), active, {})
+    twin = F.FlowIRConcrete(copy.deepcopy(case["doc"]), active, {})     # receives the updates only
     desc = K.desc_of(conc)
     twin_norm = K.desc_norm(twin)
     flat, answers, failures = [], [], []
@@ -578,7 +745,7 @@ def run_history(case, want_model_ops=True):
                 # resynchronise (report each divergence once); a description that cannot even be loaded
                 # any more ends the history
                 try:
-                    twin = F.FlowIRConcrete(conc.raw(), "default", {})
+                    twin = F.FlowIRConcrete(conc.raw(), active, {})
                     twin_norm = K.desc_norm(twin)
                 except Exception as exc:
                     failures.append(("description-cannot-be-reloaded", {"error": type(exc).__name__, "after": op}))
@@ -586,17 +753,26 @@ def run_history(case, want_model_ops=True):
             continue
         try:
             ids = sorted(conc.get_component_identifiers(False), key=str)
-            fresh = F.FlowIRConcrete(conc.raw(), "default", {})
-            fresh2 = F.FlowIRConcrete(twin.raw(), "default", {})
+            fresh = F.FlowIRConcrete(conc.raw(), active, {})
+            fresh2 = F.FlowIRConcrete(twin.raw(), active, {})
         except Exception as exc:
             failures.append(("description-cannot-be-reloaded", {"error": type(exc).__name__}))
             continue
         for (i, n) in ids:
-            for P in PLATFORMS:
+            for P in platforms:
                 q = {"op": "query", "stage": i, "name": n, "platform": P}
                 a = apply_op(conc, q)
                 flat.append(q)
                 answers.append(a)
+                if P == active and "active" in case:
+                    # the same question with the platform left out (= the active one): the same answer
+                    q2 = dict(q, implicit=True)
+                    a2 = apply_op(conc, q2)
+                    flat.append(q2)
+                    answers.append(a2)
+                    if canon(coarse(a2)) != canon(coarse(a)):
+                        failures.append(("query-of-the-active-platform-differs-from-naming-it",
+                                         {"query": q, "named": a, "left_out": a2}))
                 # (several resolution errors can coexist; which one is reported first depends on dictionary
                 # order, which differs between two objects: errors are compared by class)
                 b = apply_op(fresh, q)
@@ -977,8 +1153,56 @@ def update_alias_registered():
     return _REGISTERED[0]
 
 
+LINEBREAK_SLUGS = ("query-differs-from-from-scratch-resolution", "query-differs-from-replaying-only-the-updates")
+
+
+def classify_linebreak_platform(what, case, detail):
+    """stale answer of a query on a platform whose NAME contains a line break (`.` of the invalidation pattern
+    `component:.*:stage<i>:<name>` does not match one); repair: fixes/C08-cache-pattern-linebreak.diff"""
+    return what in LINEBREAK_SLUGS and "\n" in str(detail.get("query", {}).get("platform", ""))
+
+
+def known_registered(classifier):
+    from harness.common import load_known
+    try:
+        return any(e.get("classifier") == classifier for e in load_known("C08"))
+    except Exception:
+        return False
+
+
+def linebreak_probe(ctx):
+    """one history on a platform whose name contains a line break (outside the model: oracle only).  The unchanged
+    tree answers stale there; until the finding is registered in known_findings.json it is only tagged"""
+    case = {"kind": "history", "meta": False, "doc": base_doc(["c0", "c1"]), "linebreak": True,
+            "ops": [{"op": "sweep"}, {"op": "setVar", "stage": 0, "name": "c0", "var": "x", "value": "edited"}, {"op": "sweep"}]}
+    case = rename_platforms(ctx.rng, case, "a\nb")
+    failures = run_history(case)[3]
+    ctx.case(case, nontrivial=True, tags=["platform-name:line-break"])
+    mine = [f for f in failures if classify_linebreak_platform(f[0], case, f[1])]
+    for what, detail in failures:
+        if (what, detail) not in mine or known_registered("c08_platform_name_with_line_break"):
+            ctx.fail(what, case, detail)
+    if mine and not known_registered("c08_platform_name_with_line_break"):
+        ctx.tag("finding:stale-entry-for-platform-name-with-line-break(not registered)")
+    elif not mine:
+        ctx.tag("platform-name-with-line-break:fresh")
+
+
 CLASSIFIERS = {"c08_component_name_with_regex_metacharacters": classify_regex_name,
-               "c08_update_component_aliases_template": classify_update_alias}
+               "c08_update_component_aliases_template": classify_update_alias,
+               "c08_platform_name_with_line_break": classify_linebreak_platform}
+
+
+def name_tags(case):
+    names = case.get("names") or []
+    tags = ["platform-name:" + name_class(n) for n in names] or ["platform-name:p"]
+    if len(names) == 2:
+        tags.append("platforms:two-renamed")
+    if case.get("active"):
+        tags.append("active-platform:renamed")
+    if any(o.get("implicit") for o in case["ops"]):
+        tags.append("query:platform-left-out")
+    return tags
 
 
 def check_ghistory(ctx, case, flat, answers, failures, mo):
@@ -988,8 +1212,10 @@ def check_ghistory(ctx, case, flat, answers, failures, mo):
     nontrivial = any(any(o["op"] in ("view", "gsweep", "opaque") for o in ops[:k]) and
                      any(o["op"] in ("view", "gsweep", "opaque") for o in ops[k + 1:]) for k in upd)
     w = case["world"]
-    tags = ["gworld:%s/%s/%s/%s" % (w["mode"], "primitive" if w["primitive"] else "replicated", w["platform"] or "default",
+    tags = ["gworld:%s/%s/%s/%s" % (w["mode"], "primitive" if w["primitive"] else "replicated",
+                                    ("renamed" if case.get("names") else "p") if w["platform"] else "default",
                                     "substitute" if w["substitute"] else "raw")]
+    tags += name_tags(case)
     tags += ["gupdate:%s:%s" % (o["entry"], o["u"]["op"]) for o in ops if o["op"] == "via"]
     tags += ["gview:%s:%s" % (o["entry"], o["what"]) for o in ops if o["op"] == "view"]
     tags += ["gopaque:" + o["what"] for o in ops if o["op"] == "opaque"]
@@ -1052,6 +1278,8 @@ def check_histories(ctx, cases):
         reqs.append({"op": "run", "desc": desc, "fuel": FUEL, "ops": model_ops(flat)})
     mouts = ctx.model(reqs)
     for case, (flat, answers, failures), mo in zip(cases, runs, mouts or [None] * len(cases)):
+        if case.get("linebreak"):
+            mo = None               # a line break inside a platform name is outside the model
         if case.get("kind") == "ghistory":
             check_ghistory(ctx, case, flat, answers, failures, mo)
             continue
@@ -1061,6 +1289,7 @@ def check_histories(ctx, cases):
         ctx.case(case, nontrivial=(len(muts) >= 2 or triple) and
                  any(o["op"] in READ_ONLY + ("sweep",) for o in case["ops"][:-1]),
                  tags=["history:" + ("meta-names" if case["meta"] else "plain")] + ["op:" + k for k in kinds] +
+                      name_tags(case) +
                       ["read:" + o["what"] for o in case["ops"] if o["op"] == "read"] +
                       [K.flag_tag(o["flags"]) for o in case["ops"] if o["op"] == "queryF"] +
                       ["answer:" + (a.get("error") or "ok") for a in answers])
@@ -1091,7 +1320,8 @@ def run(ctx):
     ctx.classifiers = CLASSIFIERS
     rng = ctx.rng
     quick = ctx.tier == "quick"
-    ctx.rule = ("cases = histories over 3+ components (stages 0/1, stage-scoped blueprints) and platforms default/p: "
+    ctx.rule = ("cases = histories over 3+ components (stages 0/1, stage-scoped blueprints) and platforms default/p "
+                "(renamed, see the end): "
                 "random sequences of the 11 mutators (+ writes through the reference getters), fully resolved queries, "
                 "queries with every combination of raw/include_default/is_primitive/inject_missing_fields, copying "
                 "accessors (instance, replicate, raw, copy, component / blueprint / variable getters; every returned "
@@ -1121,8 +1351,21 @@ def run(ctx):
                 "scribbling after add_component, and delete + add out of the same template; the twin and the "
                 "reference objects always receive brand new copies.  A sample of the histories (25 + 4 graph-layer "
                 "ones; thorough 150 + 20) is run AGAIN at the end of the run in another order: the answers must be the "
-                "first ones.")
-    ctx.assumptions = ["mutators are called on the existing platforms (default, p) only",
+                "first ones.  Platform names: FlowIR accepts any string; half of the random histories (both layers), 60% "
+                "of the systematic 'populate - ONE update - ask again' cases and 30-40% of the other systematic ones "
+                "have their second platform renamed from `p` to a name out of 12 deployment-style names "
+                "(openshift-kubeflux, lsf.cluster, docker/local, OpenShift, ...) or 50 odd ones (regular-expression "
+                "metacharacters, blanks, colons, pieces of the label syntax such as `stage0` / `x:stage0:c0` / `component`, "
+                "non-ASCII, one character), in half of them next to a THIRD platform whose name sits at the lexical "
+                "boundaries of the second (prefix / suffix / doubling / case variant / escaped spelling; its sections "
+                "hold other values) with the operations dealt between the two; in 40% of the renamed first-layer cases the "
+                "object is constructed FOR the renamed platform and queries of it leave the platform argument out; a "
+                "systematic stream takes EVERY name of the pools x components whose (stage, name) sit at the lexical "
+                "boundaries of one another (stages 0/1/2/10/11, c / c0 / c00 / c0- / c-0 / c0:stage1:c0 / stage0 ...): ask "
+                "everything on every platform - update ONE component (1 of 15 ways quick, 5 thorough) - ask everything.")
+    ctx.assumptions = ["mutators are called on the existing platforms only",
+                       "platform names are non-empty and contain no line break (the empty name is an alias of the active "
+                       "platform; `.` of the invalidation pattern does not match a line break)",
                        "update_component is given a body with the same (stage, name)",
                        "values are strings / integers / booleans / floats / None / short lists",
                        "the caller does not mutate a VALUE (list) after handing it to a setter, nor the dictionary it "
@@ -1140,19 +1383,23 @@ def run(ctx):
     cases = []
     n_plain, n_meta = (45, 15) if quick else (260, 60)
     for k in range(n_plain):
-        cases.append(gen_history(rng, rng.randint(5, 30 if quick else 200), False))
+        cases.append(maybe_rename(rng, gen_history(rng, rng.randint(5, 30 if quick else 200), False), 0.5))
     for k in range(n_meta):
-        cases.append(gen_history(rng, rng.randint(5, 30 if quick else 120), True))
-    cases.extend(gen_triples(rng, 1 if quick else 4))
-    cases.extend(gen_equal_resets(rng, 6 if quick else None))
+        cases.append(maybe_rename(rng, gen_history(rng, rng.randint(5, 30 if quick else 120), True), 0.5))
+    cases.extend(maybe_rename(rng, c, 0.6) for c in gen_triples(rng, 1 if quick else 4))
+    cases.extend(maybe_rename(rng, c, 0.3) for c in gen_equal_resets(rng, 6 if quick else None))
     # components stamped out of ONE dictionary of the caller (add_component / update_component), edited one by one
     for _ in range(1 if quick else 4):
-        cases.extend(gen_shared_templates(rng, "add"))
-        cases.extend(gen_shared_templates(rng, "update"))
+        cases.extend(maybe_rename(rng, c, 0.4) for c in gen_shared_templates(rng, "add"))
+        cases.extend(maybe_rename(rng, c, 0.4) for c in gen_shared_templates(rng, "update"))
+    # every platform name of the pools x component-level updates, components at the lexical boundaries of one another
+    cases.extend(gen_platform_names(rng, 1 if quick else 5))
     # second layer: the same question through every object of a real experiment graph
     for k in range(35 if quick else 120):
-        cases.append(gen_ghistory(rng, rng.randint(4, 25 if quick else 60), GL.WORLDS[k % len(GL.WORLDS)]))
-    cases.extend(gen_gtriples(rng, [rng.choice(GL.WORLDS[:5]), rng.choice(GL.WORLDS[5:])] if quick else GL.WORLDS))
+        cases.append(maybe_rename(rng, gen_ghistory(rng, rng.randint(4, 25 if quick else 60), GL.WORLDS[k % len(GL.WORLDS)]),
+                                  0.5))
+    cases.extend(maybe_rename(rng, c, 0.6) for c in
+                 gen_gtriples(rng, [rng.choice(GL.WORLDS[:5]), rng.choice(GL.WORLDS[5:])] if quick else GL.WORLDS))
     # minimal regression inputs (corpus, inline): the read-before-write staleness pattern
     doc = base_doc(["a+b", "c0"])
     cases.insert(0, {"kind": "history", "meta": True, "doc": doc, "ops": [
@@ -1168,6 +1415,7 @@ def run(ctx):
         {"op": "read", "what": "instance", "platform": "p", "fill_in_all": False, "prim": True, "inject": False},
         {"op": "sweep"}]})
     first_runs = check_histories(ctx, cases)
+    linebreak_probe(ctx)
     again_stream(ctx, first_runs, 25 if quick else 150, 4 if quick else 20)
 
 
